@@ -107,7 +107,7 @@ def source_info(f):
 
 # --------------------------------------------------------------------------
 class Frame(object):
-    __slots__ = ('locals', 'gdict', 'gnames', 'nonlocals', 'parent', 'fname', 'qual', 'fnode')
+    __slots__ = ('locals', 'gdict', 'gnames', 'nonlocals', 'parent', 'fname', 'qual', 'fnode', 'handling')
 
     def __init__(self, gdict, parent=None, fname='?', qual='?'):
         self.locals = {}
@@ -118,6 +118,7 @@ class Frame(object):
         self.fname = fname
         self.qual = qual
         self.fnode = parent.fnode if parent is not None else None
+        self.handling = None
 
 
 class InterpFunction(object):
@@ -463,7 +464,11 @@ class Interp(object):
 
     def x_Raise(self, st, fr):
         if st.exc is None:
-            raise Unsupported("bare raise")
+            # re-raise the exception being handled (innermost handler of this frame)
+            cur = getattr(fr, 'handling', None)
+            if not cur:
+                raise RuntimeError("No active exception to reraise")
+            raise cur[-1]
         e = self.eval(st.exc, fr)
         if isinstance(e, type):
             e = e()
@@ -485,7 +490,13 @@ class Interp(object):
                     if match:
                         if h.name:
                             fr.locals[h.name] = e
-                        self.exec_block(h.body, fr)
+                        if getattr(fr, 'handling', None) is None:
+                            fr.handling = []
+                        fr.handling.append(e)
+                        try:
+                            self.exec_block(h.body, fr)
+                        finally:
+                            fr.handling.pop()
                         break
                 else:
                     raise
